@@ -30,6 +30,7 @@ var alphabet = []string{
 	"@{exec_path} += /opt/q",
 	"@{exec_path} = /bin/e @{a}/e",
 	"@{exec_path} = @{a}/e@{b}",
+	"@{exec_path} = /o/@{a}/@{a}",
 	"@{ab} = /p /q",
 	"@{a} = @{ab}/k",
 	"@{s} = @{s}/x",
